@@ -8,7 +8,7 @@ CFG = {
                   "From DSR Require Import Run_C07.\nOpen Scope N_scope.",
     "case_type": "c07case",
     "judge": "judge",
-    "rule": "A live HttpServer serves a compiled-in family of 86 operations: Path<{v:T}> and Query<{v:T, o:Option<T>, "
+    "rule": "A live HttpServer serves a compiled-in family of 97 operations: Path<{v:T}> and Query<{v:T, o:Option<T>, "
             "#[serde(default)] d:T}> for T in String, u8..u64, i8..i64, bool, char, uuid::Uuid, a unit enum with renamed variants; "
             "mixed query structs (renames, doc comments, Option / default of every kind, nothing required); "
             "#[serde(flatten)] one and two levels deep with string/char/enum leaves and with integer/bool leaves, in "
@@ -24,14 +24,21 @@ CFG = {
             "Option<struct>, FreeformBody; Deleted, UpdatedNoContent, Found, SeeOther, TemporaryRedirect, "
             "HttpResponseHeaders with declared string headers (with body, without body, unnamed), a hand-rolled "
             "Response<Body>; handlers that return every HttpError constructor; a custom error type (handler errors and "
-            "converted extractor errors). The harness fetches api.openapi(..).json() and builds requests FROM THE "
+            "converted extractor errors); a second user-defined error type whose schema name is `Error` like dropshot's "
+            "own (components Error / Error2), with a success path behind required query parameters, behind a typed "
+            "path variable, and handler-returned errors; handlers that return Ok with a value that cannot be turned "
+            "into a response when told to (a declared header value containing a line feed; a body whose Serialize "
+            "fails), for both user-defined error types and for HttpError. The harness fetches api.openapi(..).json() and builds requests FROM THE "
             "DOCUMENT ALONE: path, parameters[name,in,required,schema], requestBody content type + schema, responses; "
             "values are generated from the documented schemas (type, format read as an integer range, minimum/maximum, "
             "enum, minLength/maxLength, nullable, properties/required/additionalProperties, items, allOf/oneOf/anyOf, "
             "$ref through components), edge-biased (MIN/MAX of each width, empty and non-ASCII strings, reserved "
             "characters, NUL, 4-byte UTF-8). Per operation and round: one request with all required parameters and "
             "none / a random half / all of the optional ones in random order, then each required query parameter "
-            "omitted in turn. Observed: status, content type, body, response header names, the handler-entered "
+            "omitted in turn; and requests in which one integer / boolean parameter (path or query) carries a text "
+            "its documented schema refuses (judged on clause 3 only: the framework's extractor error must be a "
+            "documented status with a body valid for the schema THE DOCUMENT gives that operation and status class). "
+            "Observed: status, content type, body, response header names, the handler-entered "
             "counter in the server's private context. The judge (Coq) first checks that the request IS valid for the "
             "document (every sent value valid_oas for its documented schema and written as a client writes "
             "primitives, body valid for the documented schema: else malformed), then evaluates the property: all "
@@ -99,7 +106,7 @@ CFG = {
                 "Option<T> with T referenceable is published as {allOf: [$ref], nullable: true}, valid for null (K7b, "
                 "repaired in /repo by 16fe29f). Relative to: schemars' and serde's "
                 "derives agreeing with their transcriptions. Correspondence on every run: the real document replayed "
-                "against a live server over 86 operations, requests built from the document alone, spec and model "
+                "against a live server over 97 operations, requests built from the document alone, spec and model "
                 "evaluated in Coq on every answer (body validity by valid_oas on the real JSON), the document "
                 "compared structurally with the model, schema2struct compared on seeded schemas.",
         "design_ref": "DESIGN.md §6 C07",
